@@ -161,6 +161,9 @@ func (p *cprinter) expr(e ast.Expr) string {
 		if x.Op == token.NOT {
 			return "!" + p.expr(x.X)
 		}
+		if x.Op == token.SUB { // the model writes -x as 0 - x
+			return "(0 - " + p.expr(x.X) + ")"
+		}
 	case *ast.CompositeLit:
 		var elts []string
 		for _, el := range x.Elts {
